@@ -1039,7 +1039,97 @@ def _case_id(text, layout):
     return text.upper() if layout.idcase == "upper" else (text.lower() if layout.idcase == "lower" else text)
 
 
+def render_fixed(prog: Program, layout: Layout) -> Rendered:
+    """Fixed source form: statement field from column 7, continuation mark in column 6, comment lines
+    flagged in column 1, numeric labels in columns 1-5, labelled DO ... <label> CONTINUE (shared
+    terminal labels for directly nested loops), lines at most 72 characters."""
+    files, flines, occs, stmt_lines = {}, {}, [], {}
+    flags = ["C", "c", "*", "!", "d", "D"]
+    for f in prog.files:
+        name = os.path.splitext(f.name)[0] + ".f"
+        lines = []
+        nst = 0
+        label_next = [10]
+        do_stack = []  # (construct id, label)
+        stmts = f.stmts
+        for si, s in enumerate(stmts):
+            nst += 1
+            if layout.blank_every and nst % layout.blank_every == 0:
+                lines.append("")
+            if layout.comment_every and nst % layout.comment_every == 0:
+                fl = flags[(nst // layout.comment_every) % len(flags)] if layout.comment_flag == "mixed" else layout.comment_flag
+                lines.append(f"{fl} note: comment line {nst} call contains end do")
+            toks = list(s.toks)
+            label = ""
+            # labelled DO for unnamed DO constructs
+            if s.kind == "open-construct" and toks and toks[0] == "do " and layout.split_every != 1:
+                nxt = stmts[si + 1] if si + 1 < len(stmts) else None
+                if do_stack and do_stack[-1][2] == si - 1 and layout.join_every:
+                    lab = do_stack[-1][1]  # shared terminal label with the directly enclosing loop
+                    shared = True
+                else:
+                    lab = label_next[0]
+                    label_next[0] += 10
+                    shared = False
+                do_stack.append((s.opens, lab, si, shared))
+                toks = [f"do {lab} "] + toks[1:]
+            elif s.kind == "close-construct" and do_stack and s.closes == do_stack[-1][0]:
+                cid, lab, _, shared = do_stack.pop()
+                if shared:
+                    stmt_lines[id(s)] = (name, len(lines), len(lines))  # terminated by the outer loop's label line
+                    # the shared CONTINUE line is emitted when the outer loop closes
+                    pending_shared = True
+                    # map to the next emitted line
+                    stmt_lines[id(s)] = (name, -1, -1)
+                    s._shared = lab
+                    continue
+                toks = ["continue"]
+                label = str(lab)
+            pieces = []
+            for ti, t in enumerate(toks):
+                if isinstance(t, Ref):
+                    t._ti = ti
+                    pieces.append((_case_id(t.spelling(), layout), t))
+                else:
+                    pieces.append((_case_kw(t, layout), None))
+            ind = " " * min(layout.indent * s.depth, 12)
+            cur = f"{label:>5} " if label else "      "
+            cur += ind
+            first_line = len(lines)
+            was_split = False
+            for txt, ref in pieces:
+                if len(cur) + len(txt) > (66 if not layout.split_every else 30 + 8 * layout.split_every) and len(cur) > 12 + len(ind):
+                    lines.append(cur)
+                    cur = "     " + layout.cont_char + ind + "  "
+                    was_split = True
+                if ref is not None:
+                    occs.append(Occ(name, len(lines), len(cur), txt, ref.ent, ref.role, s.scope, s, ref._ti, was_split, False))
+                cur += txt
+            if s.comment and layout.trailing_comments and len(cur) < 60:
+                cur += " ! " + s.comment[: 70 - len(cur)]
+            lines.append(cur)
+            stmt_lines[id(s)] = (name, first_line, len(lines) - 1)
+        # shared-label END DOs point at the line of the label that terminates them
+        for s in stmts:
+            if stmt_lines.get(id(s), (None, 0, 0))[1] == -1:
+                lab = s._shared
+                for i, l in enumerate(lines):
+                    if l[:5].strip() == str(lab):
+                        stmt_lines[id(s)] = (name, i, i)
+        # mark split occurrences of statements that were continued (all occs of that stmt)
+        text = layout.eol.join(lines) + layout.eol
+        files[name] = text
+        flines[name] = lines
+    cont_stmts = {id(o.stmt) for o in occs if o.split}
+    for o in occs:
+        if id(o.stmt) in cont_stmts:
+            o.split = True
+    return Rendered(files, flines, occs, stmt_lines, layout)
+
+
 def render(prog: Program, layout: Layout = PLAIN, suffix=None) -> Rendered:
+    if layout.fixed:
+        return render_fixed(prog, layout)
     files, flines, occs, stmt_lines = {}, {}, [], {}
     for f in prog.files:
         name = f.name if suffix is None else os.path.splitext(f.name)[0] + suffix
@@ -1149,7 +1239,13 @@ def assign_decls(prog, rendered):
 
 
 # ------------------------------------------------------------------ gfortran validation of the generator
-def gfortran_check(rendered, workdir=None, std="f2018"):
+def gfortran_check(rendered, workdir=None, std=None):
+    if std is None:
+        std = "legacy" if rendered.layout.fixed else "f2018"
+    return _gfortran_check(rendered, workdir, std)
+
+
+def _gfortran_check(rendered, workdir, std):
     """-> None if gfortran accepts the workspace, else stderr (files are compiled in name order)."""
     own = workdir is None
     d = tempfile.mkdtemp(prefix="fm_gf_") if own else workdir
@@ -1160,7 +1256,8 @@ def gfortran_check(rendered, workdir=None, std="f2018"):
             with open(p, "w", newline="") as fh:
                 fh.write(rendered.files[n].replace("\r\n", "\n").replace("\r", "\n"))
             paths.append(p)
-        p = subprocess.run(["gfortran", "-fsyntax-only", f"-std={std}", "-J", d] + paths, capture_output=True, text=True)
+        extra = ["-fd-lines-as-comments"] if rendered.layout.fixed else []
+        p = subprocess.run(["gfortran", "-fsyntax-only", f"-std={std}", "-J", d] + extra + paths, capture_output=True, text=True)
         return None if p.returncode == 0 else p.stderr
     finally:
         if own:
